@@ -8,6 +8,7 @@ P = {'id': 'C17',
               'spec_callback_exact',
               'spec_keys_distinct',
               'spec_put_then_get',
+              'spec_get_most_recent_unless_evicted',
               'cmap_per_shard',
               'cmap_shard_is_lru',
               'read_correct',
